@@ -31,7 +31,7 @@ def ids(interp_state_heap, v):
     return None
 
 
-def r1_driver(ctx):
+def r1_driver(ctx, fn=None, rule="C12.R1"):
     """the driver on the REAL population stack (Populations methods inlined over c04's stack model), with 0..2 other
     populations underneath parents and offspring: replace() receives (parents = the population below the top,
     offspring = the top population), both are consumed, the result is pushed once on top of whatever was underneath,
@@ -41,7 +41,7 @@ def r1_driver(ctx):
     F = ctx.facts
     POP = "mahf::state::common::Populations"
     sf = F.field_index(POP, "stack")
-    fn = F.fn(REPL + "replacement")
+    fn = fn or F.fn(REPL + "replacement")
     calls = []
     bad = []
     n = 0
@@ -64,6 +64,7 @@ def r1_driver(ctx):
             for j, bname in enumerate(below):
                 heap[bname] = (c07.ind(10 + j),)
             it.init_state = {"outcome": outcome, "stack": tuple(Vec(x) for x in below) + (Vec("parents"), Vec("offspring")), "heap": heap, "next_vec": 0}
+            it.never_inline = lambda k_: k_.endswith(" as " + REPL + "Replacement>::replace")      # (the operator is answered by the scenario)
             store.install(it)
             n += 1
             where = "with %d other population(s) underneath%s, %d parent(s) and %d offspring, " % (len(below), " and the stack owned by the enclosing scope" if owner else "", npar, noff)
@@ -90,7 +91,7 @@ def r1_driver(ctx):
                     if p.end != "return" or not (isinstance(p.ret, Agg) and p.ret.variant == "Err") or "result" in names or names[:len(below)] != list(below):
                         bad.append(where + "after a failing replace(): %s %s, stack %s (expected the error, nothing pushed, %s untouched)" % (p.end, p.ret, names, list(below)))
     ctx.count("driver_scenarios", n)
-    ctx.check(not bad and calls, "C12.R1", fn.key, "pop-offspring-pop-parents-push-result", bad[0] if bad else "replace() is never called", loc=fn.loc())
+    ctx.check(not bad and calls, rule, fn.key, "pop-offspring-pop-parents-push-result", bad[0] if bad else "replace() is never called", loc=fn.loc())
 
 
 def expected(name, par, off, order, mu):
@@ -171,10 +172,7 @@ def r2_operators(ctx):
                                     bad.append(ctxs + ("drops individuals without shuffling first (the survivors are not random)",))
         ctx.check(not bad, "C12.R2", fn.key, "content-as-named",
                   "%s parents, %s offspring, objective ranks %s, capacity %s: %s %s" % (bad[0][:4] + (name, bad[0][4]) if bad else ("", "", "", "", "", "")), detail="spec=%s" % expected(name, [], [], (), 0)[0], loc=fn.loc())
-        ex = F.fn_opt("<%s as mahf::components::Component>::execute" % fn.impl_self_adt)
-        r = ex.body.expr_of_local(0) if ex else None
-        good = ex is not None and r[0] == "call" and r[1] == REPL + "replacement" and len(list(ex.body.calls())) == 1
-        ctx.check(good, "C12.R2", fn.impl_self_adt, "executes-through-driver", "execute() is not exactly replacement(self, problem, state)", loc=(ex or fn).loc())
+        # (that the operator executes through the driver - or through code that behaves like it - is C12.DRV)
     ctx.count("replacement_scenarios", total)
 
 
